@@ -19,17 +19,18 @@ import (
 // functions are also evaluated from two threads at once and that caller-owned slices are reused.
 
 type c20Pure struct {
-	On        bool  `json:"checked_in_this_run"`
-	Fns       []int `json:"function_list"` // indices into the family of distinguishable functions
-	Split     int   `json:"regroup_at"`
-	Iface     bool  `json:"interface_variants"`
-	TrampN    int   `json:"trampoline_steps"`
-	TrampErr  int   `json:"trampoline_error_at"` // 0 = never
-	Patterns  []int `json:"pattern_list"`        // permutation/subset of the five pattern kinds
-	Otherwise bool  `json:"with_otherwise"`
-	EffPanic  bool  `json:"effect_of_first_match_panics"`
-	EffNil    bool  `json:"effects_return_nil"`
-	Arity     int   `json:"adapter_arity"`
+	On          bool  `json:"checked_in_this_run"`
+	Fns         []int `json:"function_list"` // indices into the family of distinguishable functions
+	Split       int   `json:"regroup_at"`
+	Iface       bool  `json:"interface_variants"`
+	TrampN      int   `json:"trampoline_steps"`
+	TrampErr    int   `json:"trampoline_error_at"` // 0 = never
+	Patterns    []int `json:"pattern_list"`        // permutation/subset of the five pattern kinds
+	Otherwise   bool  `json:"with_otherwise"`
+	OtherwiseAt int   `json:"otherwise_at_position"` // -1: last
+	EffPanic    bool  `json:"effect_of_first_match_panics"`
+	EffNil      bool  `json:"effects_return_nil"`
+	Arity       int   `json:"adapter_arity"`
 }
 
 func genC20Pure(t *simrt.Tape) c20Pure {
@@ -61,6 +62,10 @@ func genC20Pure(t *simrt.Tape) c20Pure {
 		pool = append(pool[:j], pool[j+1:]...)
 	}
 	p.Otherwise = t.Bool(1, 2)
+	p.OtherwiseAt = -1
+	if p.Otherwise && t.Bool(1, 3) {
+		p.OtherwiseAt = t.Choose(len(p.Patterns) + 1)
+	}
 	p.EffPanic = t.Bool(1, 4)
 	p.EffNil = !p.EffPanic && t.Bool(1, 4)
 	p.Arity = 1 + t.Choose(6)
@@ -417,21 +422,27 @@ func (sc *c20Scenario) runPure(s *simrt.Sim, h *Hist) {
 			var pats []fpgo.Pattern
 			want := -1 // index into kinds of the first accepting pattern; 9 = Otherwise
 			undecided := false
-			for _, k := range p.Patterns {
+			// Otherwise is a pattern like any other: it accepts everything at the position where it stands
+			// (usually last; 1 in 3 lists carry it somewhere else)
+			kinds := append([]int{}, p.Patterns...)
+			if p.Otherwise {
+				at := len(kinds)
+				if p.OtherwiseAt >= 0 && p.OtherwiseAt < at {
+					at = p.OtherwiseAt
+				}
+				kinds = append(kinds[:at], append([]int{9}, kinds[at:]...)...)
+			}
+			for _, k := range kinds {
 				pats = append(pats, mk(k))
 				if want < 0 && !undecided {
-					switch pr.acc[k] {
-					case 1:
+					switch {
+					case k == 9:
+						want = 9
+					case pr.acc[k] == 1:
 						want = k
-					case -1:
+					case pr.acc[k] == -1:
 						undecided = true
 					}
-				}
-			}
-			if p.Otherwise {
-				pats = append(pats, mk(9))
-				if want < 0 && !undecided {
-					want = 9
 				}
 			}
 			if undecided {
